@@ -133,7 +133,16 @@ class PosClassifier:
                     for t, it in loops:
                         if src(t) == el.id and isinstance(it, ast.Call) and \
                                 src(it.func) == 'range' and len(it.args) == 1 and \
-                                src(it.args[0]).endswith(f'.shape.{dim}'):
+                                (src(it.args[0]).endswith(f'.shape.{dim}') or
+                             src(it.args[0]).endswith(f'.area.{dim}')):
+                            good = True
+                        # the coordinates of the grid's own area
+                        if src(t) == el.id and isinstance(it, ast.Call) and \
+                                isinstance(it.func, ast.Attribute) and not it.args and \
+                                it.func.attr == ('y_coordinates' if dim == 'height'
+                                                 else 'x_coordinates') and \
+                                src(it.func.value).endswith('.area') and \
+                                is_grid_expr(it.func.value.value, self.grid_names):
                             good = True
                 ok.append(good)
             if all(ok):
